@@ -225,7 +225,7 @@ pub fn run(ctx: &Ctx, st: &mut Stats) {
     let ns = scns.len() as i64;
     let tods = [0i64, 45_296_789_012, DAY_US - 1];
     let scns_ref = &scns;
-    let stride = ctx.tier.pick(30_011, 9, 1);
+    let stride = ctx.tier.pick(300_011, 9, 1);
     ctx.par(st, "every current local date x 3 times of day x scenarios", true, 0, N_DAYS as i64, |st, i, _| {
         let day = MIN_DAY + i as i32;
         let (y, m, _) = cal().of(day);
